@@ -686,7 +686,11 @@ func newUpConn(c group.Client, id string, label string, offer string) (*rtpUpCon
 
 		up.mu.Unlock()
 
-		pushConn(up, c.Group(), c.Group().GetClients(c))
+		// the client may have left its group in the meantime
+		g := c.Group()
+		if g != nil {
+			pushConn(up, g, g.GetClients(c))
+		}
 	})
 
 	pushConn(up, c.Group(), c.Group().GetClients(c))
